@@ -723,7 +723,11 @@ class MementoFunctionHashRule(HashRule):
         # pointing to a memento function is now pointing to something else, or even undefined
         # so detect if that happened, else return `False`.
         new_fn = self.resolver()
-        return not isinstance(new_fn, MementoFunctionType)
+        while not isinstance(new_fn, MementoFunctionType) and hasattr(
+            new_fn, "__wrapped__"
+        ):
+            new_fn = new_fn.__wrapped__
+        return new_fn is not self.memento_fn
 
     def __repr__(self):
         return f"MementoFunctionHashRule(key={repr(self.key)})"
